@@ -6,6 +6,7 @@
 import RumaModel.Driver.AuthCommon
 import RumaModel.Model.PowerLevels
 import RumaModel.Lemmas.PowerLevelsPush
+import RumaModel.Spec.RedactionRules
 namespace Ruma.Driver.C20
 open Ruma Ruma.Proto Ruma.Auth Ruma.Ident Ruma.PowerLevels Ruma.Driver.AuthCommon
 
@@ -134,6 +135,15 @@ def handle (toks : List String) : String :=
       | some p => showDeser p
       | none => "err"
     | _ => "bad-op"
+  | "c20.deserred" :: v :: rest =>
+    match v.toNat?, parseOne rest with
+    | some ver, some (.obj c) =>
+      if ver < 1 || ver > 11 then "bad-op"
+      else
+        match ofRedactedContent (redactedPL (Spec.Redaction.rulesOf ver) c) with
+        | some p => showDeser p
+        | none => "err"
+    | _, _ => "bad-op"
   | "c20.levels" :: rest =>
     match parseVal rest with
     | some (.obj c, [u, m, s]) =>
